@@ -29,6 +29,9 @@ PROPS["C08"] = {
         # executed runs with the in-process connect-go and grpc-go peers: the outcome map has exactly the selected names, marker components included
         {"name": "C08Exec", "pkg": CC, "test": "TestVerifC08Exec", "kind": "rapid",
          "checks": {"quick": 25, "thorough": 600}, "shards": {"quick": 3, "thorough": 8}, "timeout": {"quick": 600, "thorough": 3600}},
+        # recorded outcomes (also with feedback arriving afterwards) are classified known-failing / known-flaky iff a pattern matches
+        {"name": "C08Classify", "pkg": CC, "test": "TestVerifC08Classify", "kind": "rapid",
+         "checks": {"quick": 10000, "thorough": 150000}, "shards": {"quick": 2, "thorough": 8}},
         {"name": "C08Args", "pkg": MAIN, "test": "TestVerifC08Args", "kind": "rapid",
          "checks": {"quick": 3000, "thorough": 100000}, "shards": {"quick": 1, "thorough": 4}},
         {"name": "C08CLI", "pkg": MAIN, "test": "TestVerifC08CLI", "kind": "rapid",
